@@ -23,7 +23,7 @@ open('coq/_CoqProject', 'w').write('\n'.join(seen) + '\n')
 # Extract.v: merge Require lines and the extraction list
 e = open('coq/theories/Extract/Extract.v').read()
 mods = []
-for m in re.findall(r'From SV Require Import ([^.]*(?:\.[A-Za-z0-9_]+)*[^.]*)\.\n', e):
+for m in re.findall(r'From SV Require Import (.*?)\.\n', e):
     for x in m.split():
         if x not in mods:
             mods.append(x)
